@@ -159,9 +159,9 @@ Record state := {
   s_inmem : N; s_ialh : bytes;
   s_ptls : N;                      (* precommittedTxLogSize *)
   s_tlnf : N;                      (* txLog: how many of the newest writes are still in the write buffer
-                                      (not flushed yet: Flush happens in sync() and Close); those among
-                                      them that lie at or beyond the offset of a SetOffset are dropped by
-                                      it, what has reached the file stays there until overwritten *)
+                                      (not flushed yet: Flush happens in sync() and Close). Only matters for
+                                      preallocated files, which a rewind does not truncate: there a SetOffset
+                                      drops the buffered writes at or beyond it, what has reached the file stays *)
   s_buf : pbuf;                    (* cLogBuf *)
   s_ext : bool; s_allowed : N;     (* useExternalCommitAllowance, commitAllowedUpToTxID *)
   s_whub : N;                      (* inmemPrecommitWHub.doneUpto *)
